@@ -6,6 +6,7 @@ for n in "$@"; do
   git -C /repo worktree remove --force $d 2>/dev/null; rm -rf $d
   git -C /repo worktree add -f --detach $d HEAD >/dev/null 2>&1 || { echo "worktree add failed $n"; continue; }
   rsync -a --exclude=.git /tmp/wt/base/ $d/
+  /verif/tools/fixwt.sh $n >/dev/null
   git -C $d status --short | grep -v '^??' | head -3
   echo "ready $d"
 done
